@@ -41,4 +41,13 @@ theorem bandit_consts_match' :
   · norm_num [Coba.Generated.C16.epsDefaultNum, Coba.Generated.C16.epsDefaultDen]
   · norm_num [Coba.Generated.C16.ucbVarCapNum, Coba.Generated.C16.ucbVarCapDen]
 
+/-- what SafeLearner has memoised after a call answered by one of C16's learners (`stAfter` of `safe_wrapper_identity'`), field by field:
+`_pred_batch == 'not'`, `_pred_kwargs == kw`, `_pred_format == 'AP'` (no trailing `*`), one `_safe_call` method probed -/
+theorem safe_state_after' (kw : Bool) (st : State) :
+    (stAfter (safeSpec kw) false st st.rng).layout = some BLayout.not ∧
+    (stAfter (safeSpec kw) false st st.rng).hasKw = kw ∧
+    (stAfter (safeSpec kw) false st st.rng).fmt = some ⟨Kind.AP, false⟩ ∧
+    (stAfter (safeSpec kw) false st st.rng).method = some 1 := by
+  simp [stAfter, safeSpec, Spec.pfmt, Fmt.kind, Fmt.hinted]
+
 end Coba.C16
